@@ -16,7 +16,7 @@ Binding, both directions:
   code -> spec: seeded random longer histories (more entities, keys, JSON kinds, up to three
                 pairs per call) are executed on the real backend, recorded, and validated by TLC
                 (Tags_Trace) with every invariant of Tags.tla evaluated at every step.
-Which deviations are "as built" is probed on the code first (three two-call witnesses); the
+Which deviations are "as built" is probed on the code first (five short witness histories); the
 generator and the trace spec then run with exactly that set, so a repaired tree is compared with
 the repaired machine and an unrepaired one with the as-built machine; every other difference is a
 violation.
@@ -37,8 +37,9 @@ META = {
     "level": "model_checking",
     "level_text": "TLC checks that the current tags equal the key-value set model after every call, "
                   "that re-added pairs are current and that the edit graph stays acyclic on every "
-                  "history of tag add/update/rm calls within the bounds (up to 5 calls, 2 entities x "
-                  "2 keys x 3 JSON kinds); the same histories (exhaustive small trees, simulated long "
+                  "history of tag add/update/rm calls within the bounds (2 entities x 2 keys x 3 JSON kinds; "
+                  "4 calls in the quick tier, 5 in the thorough tier; also two pairs per call and the "
+                  "plain record_tags / update_tags API at smaller bounds); the same histories (exhaustive small trees, simulated long "
                   "ones) are executed on the real Tag/TagEdit tables and compared call by call, and "
                   "random longer real histories are validated by TLC against the same spec.",
     "level_note": "SQLite only (the JSON comparison in delete_tags is dialect dependent); single "
@@ -553,8 +554,7 @@ def _run(ctx: Ctx) -> None:
         mains = [(E2, K2, V3, 4, 1, CLI_OPS)]
         wide = None  # quick: two-argument calls and the neighbouring API are checked in the tree run of step 2
     else:
-        mains = [(E2, K2, V3, 5, 1, CLI_OPS), (E1, K2, ["i1", "f1", "true"], 5, 1, CLI_OPS),
-                 (E1, K2, ["i1", "null"], 3, 2, CLI_OPS)]
+        mains = [(E2, K2, V3, 5, 1, CLI_OPS), (E1, K2, ["i1", "null"], 3, 2, CLI_OPS)]
         wide = (E1, K2, ["i1", "null"], 3, 2, ALL_OPS)
     for (ents, keys, vals, depth, margs, kinds) in mains + ([wide] if wide else []):
         cfg = cfg_text("Spec", ents, keys, vals, depth, margs, kinds, ALL_DEVS, STATE_INVS, props)
@@ -590,7 +590,7 @@ def _run(ctx: Ctx) -> None:
     if ctx.quick:
         trees = [(E1, K1, ["i1", "null"], 2, 2, ALL_OPS)]
     else:
-        trees = [(E1, K2, ["i1", "null"], 3, 1, CLI_OPS), (E1, K2, ["i1", "null"], 2, 2, CLI_OPS),
+        trees = [(E1, K2, ["i1", "null"], 3, 1, CLI_OPS),
                  (E2, K1, ["i1", "null"], 3, 1, CLI_OPS), (E1, K1, ["i1", "null"], 3, 1, ALL_OPS),
                  (E1, K1, ["i1", "null"], 2, 2, ALL_OPS)]
     tree_behs: list = []
@@ -695,7 +695,12 @@ def _run(ctx: Ctx) -> None:
 def replay(ctx: Ctx, rec: dict) -> None:
     r = rec["replay"]
     world = World()
-    if "behaviour" in r and r.get("source") != "cli":
+    if "deviation" in r:
+        found = probe(world)
+        if r["deviation"] in found:
+            ctx.violation(WHAT.get(r["deviation"], r["deviation"]), {"deviation": r["deviation"],
+                          "witness": found[r["deviation"]]}, key=CLI_DEVS.get(r["deviation"]))
+    elif "behaviour" in r and r.get("source") != "cli":
         res = replay_one(world, r["behaviour"])
         if res["status"] == "viol":
             ctx.violation(res["what"], {"behaviour": r["behaviour"], "at": res["at"]})
